@@ -740,7 +740,7 @@ template <class PD> struct PowersetD : Hooks {
   static std::string query(const T& x) {
     T c(x); std::ostringstream o; using namespace IO_Operators;
     o << c.size() << " " << c.is_empty() << " " << c.is_universe() << "\n";
-    o << view(x);
+    c.omega_reduce(); o << c.size() << " " << c.space_dimension() << "\n";     // (the disjuncts themselves: lock_view + tiebreak)
     return o.str();
   }
   static std::string status(const std::string&) { return ""; }
